@@ -20,6 +20,7 @@ from vf.props.c06 import check_next
 from vf.runspec import execute, resolve_ftarget, run_spec
 from vf.specs import ALL_FAMILIES, CONVEX_FAMILIES, build, grid, loggrid, sgrid, vec
 
+EPS = 2.220446049250313e-16
 ID = "C13"
 LEVEL = "exploration"
 RULE = (
@@ -120,6 +121,33 @@ def make_switch_update(prob, sw, info):
     return upd, objB
 
 
+def restart_is_well_conditioned(prob, cfg1, cb_entry, objB, ref_x, tol):
+    """Conditioning probe for the differential oracle: rerun the reference restart from the same checkpoint with its
+    pairs perturbed in the last bits (three fixed patterns). If the reference's own next iterate moves by more than the
+    comparison tolerance, the comparison is decided by rounding, not by what the solver does with the state."""
+    import copy
+
+    for k in range(3):
+        ck = copy.deepcopy(cb_entry["live"])
+        sk = np.array(ck.hess_inv.sk, dtype=float, copy=True)
+        yk = np.array(ck.hess_inv.yk, dtype=float, copy=True)
+        if sk.size == 0:
+            return True
+        idx = np.arange(sk.size).reshape(sk.shape)
+        sgn_s = np.where((idx + k) % 2 == 0, 1.0, -1.0)
+        sgn_y = np.where((idx // 2 + k) % 2 == 0, 1.0, -1.0)
+        ck.hess_inv.sk = sk * (1.0 + 2.0 * EPS * sgn_s)
+        ck.hess_inv.yk = yk * (1.0 + 2.0 * EPS * sgn_y)
+        alt = run_min(prob, cfg1, checkpoint=ck, x0=np.array(cb_entry["snap"]["x"], copy=True), obj=objB)
+        if alt.exc is not None:
+            if isinstance(alt.exc, np.linalg.LinAlgError):
+                return False
+            continue  # anything else is not evidence of ill-conditioning: keep judging
+        if float(np.max(np.abs(alt.res["x"] - ref_x))) > 0.1 * tol:
+            return False
+    return True
+
+
 def check_switch(spec, stats=None):
     rspec = spec["run"]
     prob = build(rspec["problem"])
@@ -191,6 +219,13 @@ def check_switch(spec, stats=None):
                 step = float(np.max(np.abs(sj1[0]["snap"]["x"] - sj[0]["snap"]["x"])))
                 dev = float(np.max(np.abs(sj1[0]["snap"]["x"] - ref.res["x"])))
                 tol = 1e-7 * step + 1e-9 * max(1.0, float(np.max(np.abs(ref.res["x"]))))
+                if dev > tol and not restart_is_well_conditioned(prob, c1, sj[0], objB, ref.res["x"], tol):
+                    # the reference itself moves by more than the tolerance when its checkpoint is changed in the last
+                    # bit (a directional derivative of the Cauchy search cancelled down to rounding noise): the iterate
+                    # is then not a function of the state at the precision the comparison needs -- not judged
+                    if stats is not None:
+                        stats.bump("next-iterate-chaotic-under-1ulp-perturbation(not judged)")
+                    dev = 0.0
                 if dev > tol:
                     raise Violation("next-iterate-as-restart-on-new-objective",
                                     f"switch at invocation {j}: iterate {j + 1} deviates {dev:.3e} from the restart on the new objective (step {step:.3e}, tol {tol:.3e}); "
